@@ -15,6 +15,8 @@ var checks = map[string]struct {
 	fn   func(*ev.Run)
 	rule string
 }{
+	"C10": {props.C10, "a case is one monitor history (model behaviour replayed / random history recorded) or one execution of a cascade program on the real processor under one schedule; distinct = distinct history or (program, schedule); non-trivial = more than 3 operations / more than 8 property-level events"},
+	"C02": {props.C02, "a case is one execution of a cascade program on the real processor under one schedule (gate schedule or free run); distinct = distinct (program, mode, schedule); non-trivial = more than 8 property-level events"},
 	"C09": {props.C09, "a case is one execution of the real thread pool under one schedule (release sequence of the gate scheduler, or a free run); distinct = distinct (scenario, schedule); non-trivial = more than 3 scheduling decisions"},
 }
 
